@@ -95,6 +95,15 @@ func GenPoint(r *simrt.RNG) PointT {
 	}
 	p := PointT{Measurement: "m", Msg: msgs[r.Intn(len(msgs))], Tags: map[string]string{"t1": "tv"},
 		Str: map[string]string{"ts": stamps[r.Intn(len(stamps))]}, Int: map[string]int64{"n": int64(r.Intn(100)), "ms": 1610960605000}}
+	tr := r
+	switch tr.Intn(5) {
+	case 0:
+		p.Tags = map[string]string{} // a host without tags
+	case 1:
+		p.Tags["host"] = []string{"web-1", "web-2", ""}[tr.Intn(3)]
+	case 2:
+		p.Tags["host"], p.Tags["service"] = "web-2", "nginx"
+	}
 	if r.Intn(3) == 0 {
 		p.Str["s"] = []string{"abc", "", "Zhang San", "13789123014"}[r.Intn(4)]
 	}
@@ -109,6 +118,7 @@ var Theme string
 func SetTheme(r *simrt.RNG) {
 	Theme = fmt.Sprintf("pt%d", r.Intn(1000000))
 	collide = r.Intn(3) == 0
+	brokenHeavy = r.Intn(4) == 0
 	// two featured recipes: in half of the plans every script draws mostly from them, so that
 	// several scripts / tasks of one plan exercise the same builtin code with different arguments
 	featured = [2]int{r.Intn(len(recipes)), r.Intn(len(recipes))}
@@ -138,6 +148,9 @@ var (
 
 // collide makes the colliding-pattern recipe much more likely in this plan.
 var collide bool
+
+// brokenHeavy: many members of this plan's script sets fail to load (syntax, check pass, stray jumps)
+var brokenHeavy bool
 
 type recipe func(r *simrt.RNG, id int) string
 
@@ -224,7 +237,10 @@ if false {
 	},
 	// key plumbing
 	func(r *simrt.RNG, id int) string {
-		ops := []string{"rename(nn, n)\n", "cast(n, \"str\")\n", "set_tag(s)\n", "set_tag(t2, \"x\")\n", "drop_key(ts)\n", "set_measurement(s, true)\n", "add_key(n, nil)\n", "rename(t9, t1)\n", "cast(ts, \"int\")\n", "add_key(lst, [1, \"a\", 2.5])\n"}
+		ops := []string{"rename(nn, n)\n", "cast(n, \"str\")\n", "set_tag(s)\n", "set_tag(t2, \"x\")\n", "drop_key(ts)\n", "set_measurement(s, true)\n", "add_key(n, nil)\n", "rename(t9, t1)\n", "cast(ts, \"int\")\n", "add_key(lst, [1, \"a\", 2.5])\n",
+			// input tags dropped, replaced, renamed onto, consumed, read and written
+			"drop_key(t1)\n", "drop_key(host)\n", "rename(host, s)\n", "rename(t1, n)\n", "default_time(t1)\n", "set_measurement(host, true)\n",
+			"add_key(host_copy, host)\n", "add_key(t1_copy, t1)\n", "add_key(service, \"unknown\")\n", "set_tag(host, \"h9\")\n", "cast(service, \"int\")\n", "add_key(t1, 5)\n", "set_tag(n)\n"}
 		var b strings.Builder
 		n := 1 + r.Intn(5)
 		for i := 0; i < n; i++ {
@@ -379,17 +395,86 @@ func GenSet(r *simrt.RNG) map[string]string {
 		if r.Intn(30) == 0 {
 			body += "use(\"missing.p\")\n"
 		}
-		switch r.Intn(36) {
+		nb := 36
+		if brokenHeavy {
+			nb = 9 // in such plans loads often fail, in many different ways
+		}
+		switch r.Intn(nb) {
+		case 5:
+			body = StrayJump(r, i) // valid except for a jump outside any loop
 		case 0:
 			body += "a = = 1\n" // unparsable
 		case 1:
 			body += "no_such_function(1)\n" // check failure
 		case 2:
 			body += "grok(_, \"%{NO_SUCH_PATTERN:x}\")\n" // check failure inside grok compilation
+		case 3, 4:
+			body = CheckFailure(r, body) // a check failure of any kind in any syntactic context
 		}
 		set[names[i]] = Layout(r, body)
 	}
 	return set
+}
+
+// checkFailing are statements the check pass rejects (the text parses): unknown function, wrong
+// number / kind of arguments, undefined grok pattern, jumps outside a loop, non-string map key.
+var checkFailing = []string{"no_such_function(1)", "cast(x)", "add_key()", "rename(a)", "grok(_, \"%{NO_SUCH_PATTERN:x}\")", "break", "continue",
+	"add_key(1, 2)", "replace(s, \"[a-\", \"y\")", "zz = {1: 2}", "default_time(ts, 5, 6, 7)", "use(\"a.p\", 2)", "datetime(ms)", "set_tag(1)", "drop_key()"}
+
+// CheckFailure puts one statement the check pass rejects into body: at the top level (front,
+// middle or end) or inside an if / else / for / for-in body or nested two deep - whatever the check
+// pass had on its stacks at that moment (loop nesting, pattern scopes, recorded use() calls) is
+// what it leaves behind. A jump inside a loop is legal, so in loop contexts another kind is drawn.
+func CheckFailure(r *simrt.RNG, body string) string {
+	k := r.Intn(len(checkFailing))
+	st := checkFailing[k]
+	ctx := r.Intn(8)
+	if (st == "break" || st == "continue") && ctx >= 3 && ctx != 5 {
+		// inside a loop a jump is fine: keep it (a legal neighbour) and add a failing call after it
+		st = "if false {\n" + st + "\n}\n" + checkFailing[r.Intn(5)]
+	}
+	wrapped := st + "\n"
+	switch ctx {
+	case 3:
+		wrapped = "for i = 0; i < 2; i = i + 1 {\n  " + strings.ReplaceAll(st, "\n", "\n  ") + "\n}\n"
+	case 4:
+		wrapped = "for x in [1, 2] {\n  add_key(cf_seen, x)\n  " + strings.ReplaceAll(st, "\n", "\n  ") + "\n}\n"
+	case 5:
+		wrapped = "if true {\n  " + st + "\n} else {\n  add_key(cf_else, 1)\n}\n"
+	case 6:
+		wrapped = "for k in {\"a\": 1} {\n  if k == \"a\" {\n    for ;; {\n      " + strings.ReplaceAll(st, "\n", "\n      ") + "\n      break\n    }\n  }\n}\n"
+	case 7:
+		// in the loop's own clauses: the failing call is the condition's operand
+		if !strings.Contains(st, "\n") && strings.HasSuffix(st, ")") {
+			wrapped = "for i = 0; " + st + " == 1; i = i + 1 {\n  add_key(cf_never, 1)\n}\n"
+		}
+	}
+	lines := strings.SplitAfter(body, "\n")
+	// only between top-level statements (a line that starts in column one and the previous line closed its block)
+	var cuts []int
+	depth := 0
+	for i, ln := range lines {
+		if depth == 0 && !strings.HasPrefix(ln, " ") && !strings.HasPrefix(ln, "}") {
+			cuts = append(cuts, i)
+		}
+		depth += strings.Count(ln, "{") - strings.Count(ln, "}")
+	}
+	cuts = append(cuts, len(lines))
+	at := cuts[r.Intn(len(cuts))]
+	return strings.Join(lines[:at], "") + wrapped + strings.Join(lines[at:], "")
+}
+
+// StrayJump is a script that is valid except for a jump outside any loop (directly or inside an if).
+func StrayJump(r *simrt.RNG, id int) string {
+	j := []string{"break", "continue"}[r.Intn(2)]
+	switch r.Intn(3) {
+	case 0:
+		return fmt.Sprintf("add_key(sj%d, 1)\n%s\nadd_key(sj_after%d, 2)\n", id, j, id)
+	case 1:
+		return fmt.Sprintf("add_key(sj%d, 1)\nif n > 50 {\n  %s\n}\nadd_key(sj_after%d, 2)\n", id, j, id)
+	default:
+		return fmt.Sprintf("for i = 0; i < 2; i = i + 1 {\n  add_key(sj%d, i)\n}\n%s\n", id, j)
+	}
 }
 
 // Mutate damages a source text (for PARSE operations): the result may be
